@@ -56,6 +56,9 @@ def on_close(self):
     ensures('no_cleanups_no_calls', implies(old(self._cleanups) is None, calls() == old(calls())))
     loop_invariant(0, 'count', len(calls()) == n0 + _i and self._cleanups is old(self._cleanups) and wf_cleanups(self))
     loop_modifies(0, user_effects)
+    replay('each_cleanup_once', 'cleanups_once')
+    replay('raises_nothing', 'cleanups_once')
+    replay('closed', 'cleanups_once')
 
 
 @contract('plumpy.processes.Process.close', props=['C02', 'C16'])
